@@ -99,5 +99,12 @@ theorem top_up_keeps_settlement (del : Acct) (val : AVal) (d : Denom) (amt : Int
 theorem claim_is_stake_neutral' (del : Acct) (v : ValId) (d : Option Denom) (w w' : World) (hk : KD w)
     (h : step (.claim del v d) w = (.ok (), w')) : SV w w' := claim_is_stake_neutral del v d w w' hk h
 
+/-- a successful `MsgClaimDelegationRewards` changes the claimant's balance by the coins the claim computed (and no other
+    user's balance at all: `C04.other_users_balances_untouched`) -/
+theorem claim_pays_the_claimant (del : Acct) (hu : IsUser del) (v : ValId) (dn d : Denom) (w w' : World)
+    (h : step (.claim del v (some dn)) w = (.ok (), w')) :
+    ∃ coins, bankBalance w' del d = bankBalance w del d + Coins.sumOf coins d :=
+  claim_pays_the_claimant_exactly del hu v dn d w w' h
+
 end C13
 end Alliance
